@@ -2,13 +2,17 @@
    proved on the .des model: the sequence list assigned to a structure re-reads (names through
    their own `sequence` lines, `*` as reverse complement, zero-length domains skipped) to exactly
    the nucleotides of the structure's strands in order; the auxiliary duplex of length L pairs
-   position L-1-i of its first strand with position L+i, i.e. its second strand is forced to be
-   the reverse complement of the first (so `Self: WC signal` makes WC the complement, a starred
-   binding `dup: signal port` makes the port complementary, an unstarred one `dup: WC port`
-   makes it equal).  NOT proved: the global equivalence of the two constraint sets; it is
+   position L-1-i of its first strand with position L+i; for EVERY nucleotide assignment such a
+   duplex holds exactly when its second strand is the reverse complement of its first
+   (C03_duplex_forces_complement), hence - given the signal's own Self structure - the structure the
+   back-end writes for an unstarred binding holds exactly when the port equals the signal and the
+   one for a starred binding exactly when the port is the signal's reverse complement, which is
+   what the `equal` line of the PIL back-end says (C03_binding_equal / C03_binding_complement);
+   C03_signal_lines states which lines are written for a signal and each of its bindings.
+   NOT proved: the global equivalence of the two constraint sets over a whole nested system; it is
    decided per case by the partition oracle over all structure positions. *)
 From Coq Require Import List String Ascii Arith.
-From PC Require Import Comp.Syntax Comp.Compile Comp.Denote Comp.EmitProofs Design.Designer Sys.System Sys.Des Sys.DesProofs.
+From PC Require Import Comp.Syntax Comp.Compile Comp.Denote Comp.EmitProofs Design.Designer Sys.System Sys.Des Sys.DesProofs Sys.SignalProofs.
 Import ListNotations.
 
 Theorem C03_assignment_rereads_partial : forall c, WF c -> forall l, (forall x, In x l -> ahas (c_bases c) (fst x) = true) ->
@@ -24,3 +28,32 @@ Print Assumptions C03_structure_sequences_are_its_strands.
 Theorem C03_duplex_bonds : forall L, get_bonds (duplex L) = OK (combine (rev (seq 0 L)) (seq L L)).
 Proof. exact duplex_bonds. Qed.
 Print Assumptions C03_duplex_bonds.
+
+Theorem C03_duplex_forces_complement : forall v a b L, List.length a = L -> List.length b = L ->
+  (sat_bonds v (a ++ b) (combine (rev (seq 0 L)) (seq L L)) <-> seqval v b = rcb (seqval v a)).
+Proof. exact duplex_sat. Qed.
+Print Assumptions C03_duplex_forces_complement.
+
+Theorem C03_binding_equal : forall v sg wcn port L, List.length sg = L -> List.length wcn = L -> List.length port = L ->
+  sat_bonds v (wcn ++ sg) (combine (rev (seq 0 L)) (seq L L)) ->
+  (sat_bonds v (wcn ++ port) (combine (rev (seq 0 L)) (seq L L)) <-> seqval v port = seqval v sg).
+Proof. exact des_binding_equal. Qed.
+Print Assumptions C03_binding_equal.
+
+Theorem C03_binding_complement : forall v sg port L, List.length sg = L -> List.length port = L ->
+  (sat_bonds v (sg ++ port) (combine (rev (seq 0 L)) (seq L L)) <-> seqval v (rc port) = seqval v sg).
+Proof. exact des_binding_complement. Qed.
+Print Assumptions C03_binding_complement.
+
+Theorem C03_signal_lines : forall f prefix comps sigs lens i o sname entries,
+  In (sname, entries) sigs ->
+  let len := match afind lens sname with Some l => l | None => 0 end in
+  let sg := prefix +++ sname in let wcn := sg +++ "-_WC" in
+  let out := emit_des_obj (S f) (OSys prefix comps sigs lens i o) in
+  In (DStruct (sg +++ "-_Self") (duplex len)) out /\ In (DAssign (sg +++ "-_Self") [(wcn, false); (sg, false)]) out /\
+  forall l cname wc, In (l, cname, wc) entries ->
+    let dn := sg +++ "-" +++ fst (binding_seqs prefix comps l cname) in
+    In (DStruct dn (duplex len)) out /\
+    In (DAssign dn (((if wc then sg else wcn), false) :: snd (binding_seqs prefix comps l cname))) out.
+Proof. exact des_signal_lines. Qed.
+Print Assumptions C03_signal_lines.
